@@ -19,7 +19,7 @@ ASSUMPTIONS = [
 @st.composite
 def zmask(draw, tier):
     hi = 20 if tier == "quick" else 40
-    shape = draw(gen.shape2(8, hi))
+    shape = draw(gen.shape2(8, hi, big=0.02, big_pool=[64, 65, 100, 129]))
     m, n = shape
     rr, cc = np.mgrid[0:m, 0:n]
     kind = draw(st.sampled_from(["disc", "disc", "ellipse", "ring", "islands", "blob"]))
